@@ -146,12 +146,16 @@ class Run:
         except Exception:
             return 0, 1
 
-    def replay(self, idx, timeout=600):
-        """Run one case alone.  Returns (lines, returncode, stderr_text)."""
+    def replay(self, idx, timeout=600, history=None):
+        """Run one case alone -- or, with history="I/N", after the earlier cases of shard I of N in one process (a failure that
+        needs what an earlier case left behind).  Returns (lines, returncode, stderr_text)."""
         out = os.path.join(self.workdir, "%s.replay.%d.jsonl" % (self.tag, idx))
         if os.path.exists(out):
             os.unlink(out)
         cmd = self.cmd0 + self.args + ["--replay", str(idx), "--out", out]
+        if history:
+            cmd += ["--replay-history", history]
+            timeout = 3600
         try:
             r = subprocess.run(cmd, env=self.env, capture_output=True, text=True, errors="replace",
                                timeout=timeout, cwd=self.workdir)
@@ -168,9 +172,9 @@ class Run:
         return lines, rc, err
 
 
-def replay_confirms(run, v):
-    """Replay-before-report: does case v['idx'] alone reproduce a violation with the same key?"""
-    lines, rc, err = run.replay(v["idx"])
+def replay_confirms(run, v, history=None):
+    """Replay-before-report: does case v['idx'] alone (or after its shard's earlier cases) reproduce a violation with the same key?"""
+    lines, rc, err = run.replay(v["idx"], history=history)
     if v["kind"] in ("crash", "timeout"):
         if rc == 0:
             return False, "replay exited normally"
@@ -305,6 +309,13 @@ def do_check(pid, tier):
         if not ok and len(vs) > 1:
             v = vs[1]
             ok, why = replay_confirms(v["run"], v)
+        history = None
+        if not ok and v["kind"] == "logic" and not v["run"].spec.get("script"):
+            # not reproduced alone: the failure may need what an earlier case of the same worker left behind in the library
+            # (process-wide or per-thread state).  Re-run that shard's cases up to this one in one process.
+            v = vs[0]
+            history = "%d/%d" % (v["idx"] % v["run"].nshards, v["run"].nshards)
+            ok, why = replay_confirms(v["run"], v, history=history)
         if not ok:
             flaky.append("%s (case %d): %s" % (key, v["idx"], why))
             continue
@@ -312,6 +323,9 @@ def do_check(pid, tier):
                "args": v["run"].args, "env": v["run"].spec.get("env", {}), "idx": v["idx"], "key": key,
                "case": v["desc"], "detail": v.get("detail", ""), "instances": len(vs),
                "report": v.get("report", "")[:3000]}
+        if history:
+            rec["history"] = history
+            rec["note"] = "reproduces only after the earlier cases of the same worker (shard %s): state left behind in the library between cases" % history
         if (pid, key) in known:
             known_hits.append((key, known[(pid, key)], len(vs)))
             continue
@@ -402,12 +416,12 @@ def do_replay(pid, path):
         r.env["VERIF_TOOLS"] = os.path.join(root, "tools")
     v = {"idx": rec["idx"], "key": rec["key"],
          "kind": "crash" if rec["key"].startswith("crash") else ("timeout" if rec["key"] == "timeout" else "logic")}
-    lines, rc, err = r.replay(rec["idx"])
+    lines, rc, err = r.replay(rec["idx"], history=rec.get("history"))
     for l in lines:
         log(json.dumps(l))
     if err.strip():
         log(err[-3000:])
-    ok, why = replay_confirms(r, v)
+    ok, why = replay_confirms(r, v, history=rec.get("history"))
     shutil.rmtree(workdir, ignore_errors=True)
     if ok:
         log("VIOLATION property=%s replay=%s" % (pid, path))
